@@ -58,7 +58,7 @@ def old_sps(draw):
 def edit_and_result(draw, S):
     """Return (edit op without handle index, resulting state point or None when not easily predicted)."""
     kind = draw(st.sampled_from([
-        "sp_set", "sp_set", "sp_del", "sp_nested_set", "sp_list_append", "sp_list_set", "sp_assign", "sp_assign",
+        "sp_set", "sp_set", "sp_del", "sp_nested_set", "sp_nested_set2", "sp_list_append", "sp_list_set", "sp_assign", "sp_assign",
         "sp_reset", "sp_update", "update_statepoint", "update_statepoint", "sp_retype", "move", "clone", "clone_same", "noop",
     ]))
     S2 = json.loads(json.dumps(S))
@@ -81,6 +81,13 @@ def edit_and_result(draw, S):
         if isinstance(S2.get("n"), dict):
             S2["n"]["y"] = v
         return {"op": "sp_nested_set", "k": "n", "k2": "y", "v": v}, S2
+    if kind == "sp_nested_set2":
+        v, v3 = draw(VAL), draw(VAL)
+        k3 = draw(st.sampled_from(["x", "y", "z"]))
+        if isinstance(S2.get("n"), dict):
+            S2["n"]["y"] = v
+            S2["n"][k3] = v3
+        return {"op": "sp_nested_set2", "k": "n", "k2": "y", "v": v, "k3": k3, "v3": v3}, S2
     if kind == "sp_list_append":
         if isinstance(S2.get("l"), list):
             S2["l"].append(5)
